@@ -1,15 +1,21 @@
 ---- MODULE AdmissionGen ----
-(* Schedule source: TLC enumerates EVERY case of the design spec (breadth-first, no simulation needed: the behaviours
-   are one environment move long) and prints it as a two-step schedule.  Only the environment's move (the abstract
-   submission) is recorded; what the handler does with it is the implementation's business.  The Cfg step carries the
-   model's endpoint list (the executor cross-checks it against the exported method set of validatorapi.Component)
-   and the model's signing tables - domain name and epoch source per type - from which the executor signs. *)
+(* Schedule source: TLC enumerates EVERY case of the design spec (breadth-first, no simulation needed: the
+   environment chooses the whole schedule with its first move) and prints it as a schedule.  Only the environment's
+   moves (the abstract submissions) are recorded; what the handler does with them is the implementation's business.
+   Three families (one TLC run each): "single" one single-element call, "batch" one call with 2..3 elements,
+   "seq" 2..3 calls that carry the same signature.  The Cfg step carries the model's endpoint list (the executor
+   cross-checks it against the exported method set of validatorapi.Component) and the model's signing tables -
+   domain name and epoch source per type - from which the executor signs. *)
 EXTENDS Admission, Json
+CONSTANT GenFamily
 VARIABLE hist
+CfgStep == [ev |-> "Cfg", N |-> N, V |-> V, endpoints |-> Endpoints, dom |-> Dom, esrc |-> EpochSource]
 GenInit == Init /\ hist = <<>>
-GenNext == phase = "idle" /\ \E c \in CasesOn(Paths) : Submit(c) /\ hist' = <<[ev |-> "Cfg", N |-> N, V |-> V, endpoints |-> Endpoints,
-                                                    dom |-> Dom, esrc |-> EpochSource],
-                                                   [ev |-> "Submit", c |-> c]>>
+GenNext == /\ phase = "idle"
+           /\ \/ GenFamily = "single" /\ \E c \in CasesOn(Paths) : Submit(c) /\ hist' = <<CfgStep, [ev |-> "Submit", c |-> c]>>
+              \/ GenFamily = "batch" /\ \E b \in BatchCasesOn(Paths) : SubmitBatch(b) /\ hist' = <<CfgStep, [ev |-> "SubmitBatch", c |-> b]>>
+              \/ GenFamily = "seq" /\ \E q \in SeqsOn(Paths) :
+                     Submit(q[1]) /\ hist' = <<CfgStep>> \o [i \in 1..Len(q) |-> [ev |-> "Submit", c |-> q[i]]]
 GenSpec == GenInit /\ [][GenNext]_<<vars, hist>>
 Emit == hist = <<>> \/ PrintT("@@SCHED@@" \o ToJson(hist))
 ====
